@@ -126,14 +126,17 @@ func (c *cacheParams) commit(ctx sdk.Context, k common.KeeperOracle) {
 	}
 	i := 0
 	for ; i < len(index.Index); i++ {
-		b := index.Index[i]
-		if b >= threshold {
+		if index.Index[i] >= threshold {
 			break
 		}
-		k.RemoveRecentParams(ctx, b)
 	}
-	if i > 0 && i == len(index.Index) {
+	// keep the newest of the old entries too: a restarted node replays the last MaxNonce blocks and needs the
+	// params that were in force before the first of them; and never delete params the index still refers to
+	if i > 0 {
 		i--
+	}
+	for _, b := range index.Index[:i] {
+		k.RemoveRecentParams(ctx, b)
 	}
 	index.Index = index.Index[i:]
 	// remove and append for KVStore
